@@ -749,7 +749,9 @@ def run_mustcheck(prog, ctx=None):
             u1, i1 = cur.get(nm, [0, 0])
             if not (u1 or i1):
                 continue
-            ok = i1 <= i0
+            # a check was dropped where a call site that used the result ignores it now; a statement that is duplicated into two
+            # branches ignores the result twice without any check having gone
+            ok = i1 <= i0 or u1 >= u0
             f, e = (where.get((k, nm)) or [where.get((k, nm, "f"))])[-1]
             res.ob("%s:%s" % (k.split(":", 1)[1], nm), ok, f, e.get("l", f.line),
                    "" if ok else "%s ignores the result of %s at %d call site(s) (`%s`); the reference tree used it at %d of its %d call sites here: a check was dropped" % (
